@@ -129,6 +129,11 @@ func init() {
 		u.fn("rv_type", []string{"RV"}, "TypeTag")
 		u.fn("rv_iface", []string{"RV"}, "Iface")
 		u.fn("rv_canset", []string{"RV"}, "Bool")
+		u.w.declFun("rv_zero", nil, "RV")
+		if !u.frameDone["rvzero"] {
+			u.frameDone["rvzero"] = true
+			u.fact("(not (rv_valid rv_zero))")
+		}
 		v := app("rv_of", x)
 		ck := "rvof:" + x
 		if !u.frameDone[ck] {
